@@ -1404,10 +1404,12 @@ def apply_text_layout(
                 line.append(tseg)
                 attrrange(s.offs, s.offs, len(tseg))
                 rle_join_modify(linec, cs)
-            elif s.offs:
+            elif s.offs is not None:
+                # padding that stands for (half of) a character of the text at offset offs - which may be 0
                 if s.sc:
                     line.append(b"".rjust(s.sc))
                     attrrange(s.offs, s.offs, s.sc)
+                    rle_append_modify(linec, (None, s.sc))
             else:
                 line.append(b"".rjust(s.sc))
                 linea.append((None, s.sc))
